@@ -113,10 +113,17 @@ CLAIMED.update({
     ref="DESIGN.md §4 C16"),
 })
 
+CLAIMED.update({
+  "C18": dict(
+    text="Per-operation specifications and an inductive invariant for History and Feed, decided by path-wise abstract interpretation in a linear domain: the fields of the receiver before the operation are symbols, the invariant and the branch facts of each enumerated path are hypotheses, the values stored on the path are the state afterwards (loads of a field are required to precede the store to it), goals go to the linear-inequality prover. History: with `elements nil and index 0, or 0 <= index <= len-1`, Back moves the cursor by one exactly where index >= 1 and otherwise stays at 0, Forward by one exactly where index+1 <= len-1 and otherwise stays at the last entry, Add stores append(elements[:index+1], new) and index+1 (one-element list and 0 on a fresh history), every operation re-establishes the invariant, Current indexes within bounds on a non-empty history. Feed: Contains(k) is shown equivalent to lowerBound < index+k < upperBound; the three moves store index-1 / index+1 / 0 only where the target is known contained and touch nothing else; Append/Prepend write only keys at or beyond the bound they then move by len(input); Get/Current/IsParent/IsChild and the constructors are shape-checked against positions relative to the opened item. By induction over operations this is the list-with-cursor / two-sided-sequence behaviour for all operation sequences.",
+    note="Assumed: fields written by their own packages only (checked). Not decided: map contents beyond which keys are written, a Feed from CreateEmpty (unused), an exhaustive comparison with an executable reference model.",
+    technique="static path-wise abstract interpretation in a linear domain (pre-state symbols, inductive invariant as hypothesis, linear-inequality prover) + shape rules",
+    ref="DESIGN.md §4 C18"),
+})
+
 NOT_APPLICABLE = {
   "C13": "content preservation / line-length bounds of Wrap, DumbWrap, Pad, Indent, Snip are relations between input and output string values for all strings and widths; no sound static argument over the code's shape decides them (DESIGN.md §5)",
   "C14": "per-character attribute sets after arbitrary nesting and layout are string values; the structural facts available (single SGR emitter) are not necessary conditions of this property (DESIGN.md §5)",
-  "C18": "refinement of History/Feed against list models over all operation sequences is a statement about integer and slice values over histories; not visible in the shape of the code (DESIGN.md §5)",
 }
 
 PENDING_REASON = "rules designed in DESIGN.md §4 but not yet implemented in the checker; not claimed until they run"
